@@ -16,6 +16,11 @@
       runtime (`multi_step_never_raises_repaired`), partial + counterexamples as is;
     * (phase 4) `literal_eval` as an oracle: the wrapper of 2.x GenerateValueAction (`generate_value_v2_total`, repaired).
 
+    * (phase 5) the response assembly of `LLMRails.generate_async` (the loops over `new_events` that run after the runtime
+      returned, outside every try/except), literals and the shape of the removing statement regenerated from the source:
+      total for every event list (`assemble_total`), equal to a stack specification (`assemble_spec`), LLM-written scripts are
+      joined literally when none of them is the control script (`assemble_literal`); 2.x loop `assembleV2_total`.
+
   What is NOT carried by a theorem (search territory of the check, see design_notes/C17.md):
     * Jinja, `literal_eval`, the Colang parsers, `compute_next_steps` (oracles here), Colang 2.x `AddFlowsAction` and the
       execution of generated flows, `eval_expression`;
@@ -31,6 +36,8 @@ import NemoVerif.Lemmas.LlmText
 import NemoVerif.Lemmas.LlmGen
 import NemoVerif.Lemmas.DataflowIR
 import NemoVerif.Generated.C17Dataflow
+import NemoVerif.Lemmas.LlmAssemble
+import NemoVerif.Generated.C17Assembly
 
 namespace NemoVerif.C17
 open NemoVerif.Py NemoVerif.Py.Str NemoVerif.LlmText
@@ -561,5 +568,156 @@ theorem v2_generated_flow_embeds_llm_text_as_code :
     (match flowContinuation id (lit "u") (lit "bot action: bot say \"{191*7}\"") with
       | .ok o => endsWith o.body (lit "\n  bot say \"{191*7}\"") && startsWith o.name (lit "_dynamic_u ")
       | .error _ => false) = true := by decide +kernel
+
+
+/-! ## Phase 5 — the response assembly of `LLMRails.generate_async` (after the runtime returned, outside every try/except)
+
+`Generated.C17Assembly.spec` is regenerated from llmrails.py on every run: the literals (`StartUtteranceBotAction`,
+`(remove last message)`, `Exception`, the join separator …) and the SHAPE of the statement that removes the last message
+(`responses = responses[0:-1]` = `.sliceDropLast`; `responses.pop()` / `del responses[-1]` = `.pop`). -/
+
+section Assembly
+open NemoVerif.LlmAssemble NemoVerif.Generated.C17Assembly
+
+/-- the source removes the last message with the total slice (this is the fact a `pop()` rewrite falsifies) -/
+theorem generated_remove_is_slice : spec.removeOp = .sliceDropLast := by decide
+
+/-- the assembly is not wrapped in a try: what it raises leaves `generate` (so totality is what matters) -/
+theorem generated_assembly_unguarded : spec.guarded = false := by decide
+
+/-- general form: with the slice the 1.0 assembly never raises, for EVERY list of events whose utterance events carry their
+    script, whatever the scripts (LLM text) are -/
+theorem assemble_total_of_slice (sp : Spec) (h : sp.removeOp = .sliceDropLast) (evs : List LlmAssemble.Ev) (hp : scriptsPresent sp evs) :
+    ∃ m, assembleResponses sp evs = .ok m := by
+  unfold assembleResponses
+  rw [loop1_slice sp h evs {} hp]
+  exact ⟨_, rfl⟩
+
+/-- **the response assembly of the current source is total**: for every list of new events (every script text, every event
+    type, first or later utterance of the call) `generate_async` builds a message and does not raise -/
+theorem assemble_total (evs : List LlmAssemble.Ev) (hp : scriptsPresent spec evs) : ∃ m, assembleResponses spec evs = .ok m :=
+  assemble_total_of_slice spec generated_remove_is_slice evs hp
+
+/-- non-vacuity of `assemble_total`: the control script as the FIRST utterance of the call (the case the `pop()` rewrite breaks) -/
+example : scriptsPresent spec [{ id := 0, type := spec.utterType, script := some spec.removeScript }, { id := 1, type := "Listen".toList }] := by
+  intro e he h
+  simp at he
+  rcases he with rfl | rfl
+  · rfl
+  · revert h; decide
+
+/-- full strength without the key hypothesis: the only exception the assembly can raise is the KeyError of `event["script"]`
+    on an utterance event without script (never an IndexError) -/
+theorem assemble_only_key_error (evs : List LlmAssemble.Ev) (x : PyErr) (h : assembleResponses spec evs = .error x) : x = .keyError := by
+  unfold assembleResponses at h
+  split at h
+  · cases h
+  · rename_i y hy
+    cases h
+    exact loop1_slice_err spec generated_remove_is_slice evs {} _ hy
+
+/-- **specification**: the message is the exception event that came last, else the join of the STACK of scripts
+    (push a script, the control script pops if there is something to pop) -/
+theorem assemble_spec (evs : List LlmAssemble.Ev) (hp : scriptsPresent spec evs) :
+    assembleResponses spec evs = .ok (match specException spec evs with
+      | some e => .exception e
+      | none => .assistant (join spec.joinSep (specResponses spec evs))) := by
+  unfold assembleResponses
+  rw [loop1_slice spec generated_remove_is_slice evs {} hp]
+  simp only [messageOf, specException, specResponses]
+  split <;> simp_all
+
+/-- **well-formed**: an assistant message with a string content, or an exception message whose content is one of the new events
+    with a type ending in `Exception` -/
+theorem assemble_wellformed (evs : List LlmAssemble.Ev) (hp : scriptsPresent spec evs) :
+    (∃ c, assembleResponses spec evs = .ok (.assistant c)) ∨
+    (∃ e, assembleResponses spec evs = .ok (.exception e) ∧ e ∈ evs ∧ endsWith e.type spec.excSuffix = true) := by
+  rw [assemble_spec evs hp]
+  cases hx : specException spec evs with
+  | none => left; exact ⟨_, rfl⟩
+  | some e =>
+    right
+    refine ⟨e, rfl, ?_⟩
+    rcases foldl_specExc_mem spec evs none e hx with h | ⟨hm, _, hend⟩
+    · cases h
+    · exact ⟨hm, hend⟩
+
+/-- **LLM text is data**: if no utterance script is the control script and no rail exception was raised, the reply is exactly the
+    scripts of the utterance events joined in order — nothing in a script is interpreted -/
+theorem assemble_literal (evs : List LlmAssemble.Ev) (hp : scriptsPresent spec evs)
+    (hn : ∀ e ∈ evs, e.type = spec.utterType → e.script ≠ some spec.removeScript)
+    (hx : ∀ e ∈ evs, e.type ≠ spec.utterType → endsWith e.type spec.excSuffix = false) :
+    assembleResponses spec evs = .ok (.assistant (join spec.joinSep (utterScripts spec evs))) := by
+  rw [assemble_spec evs hp]
+  have h1 : specException spec evs = none := foldl_specExc_none spec evs hx
+  have h2 : specResponses spec evs = utterScripts spec evs := by
+    have := foldl_specStep_no_control spec evs [] hn
+    simpa [specResponses] using this
+  simp [h1, h2]
+
+/-- non-vacuity of `assemble_literal`: template syntax in a script, a near miss of the control script as second utterance -/
+example : assembleResponses spec [{ id := 0, type := spec.utterType, script := some "{{ 191*7 }} $secret".toList },
+      { id := 1, type := spec.utterType, script := some "(remove last message) ".toList }, { id := 2, type := "Listen".toList }]
+    = .ok (.assistant "{{ 191*7 }} $secret\n(remove last message) ".toList) := by decide +kernel
+
+/-- the control script as first utterance / after a message: an empty reply, not an exception (finite witnesses) -/
+theorem assemble_control_first :
+    assembleResponses spec [{ id := 0, type := spec.utterType, script := some spec.removeScript }] = .ok (.assistant [])
+    ∧ assembleResponses spec [{ id := 0, type := spec.utterType, script := some "Hi".toList },
+        { id := 1, type := spec.utterType, script := some spec.removeScript }] = .ok (.assistant []) := by decide +kernel
+
+/-- why the SHAPE is part of the tie: the same loop with `responses.pop()` raises IndexError on the control script as first
+    utterance (so `assemble_total_of_slice` needs its hypothesis, and the `pop()` rewrite is a real counterexample) -/
+theorem assemble_pop_raises :
+    assembleResponses { spec with removeOp := .pop } [{ id := 0, type := spec.utterType, script := some spec.removeScript }]
+      = .error .indexError := by decide +kernel
+
+/-- 2.x loop: total when `Start…Action` events carry `action_uid` and finished utterances `final_script` -/
+theorem assembleV2_total (evs : List LlmAssemble.Ev) (hk : keysPresent spec evs) : ∃ m, assembleResponsesV2 spec evs = .ok m := by
+  unfold assembleResponsesV2
+  obtain ⟨st, hst⟩ := loop2_ok spec evs {} hk
+  rw [hst]
+  exact ⟨_, rfl⟩
+
+/-- non-vacuity of `assembleV2_total` -/
+example : keysPresent spec [{ id := 0, type := "StartUtteranceBotAction".toList, actionUid := some "u".toList, keys := ["script".toList, "uid".toList] },
+    { id := 1, type := spec.finishedType, finalScript := some "{191*7}".toList }, { id := 2, type := "Start\nAction".toList }] := by
+  intro e he
+  simp at he
+  rcases he with rfl | rfl | rfl <;> decide +kernel
+
+/-- 2.x full strength without the hypothesis: only the KeyError of `event["action_uid"]` / `event["final_script"]` -/
+theorem assembleV2_only_key_error (evs : List LlmAssemble.Ev) (x : PyErr) (h : assembleResponsesV2 spec evs = .error x) : x = .keyError := by
+  unfold assembleResponsesV2 at h
+  split at h
+  · cases h
+  · rename_i y hy
+    cases h
+    exact loop2_err spec evs {} _ hy
+
+/-- the `Start(.*Action)` match (finite witnesses: greedy, stops at a newline, needs the prefix) -/
+theorem startActionName_witnesses :
+    startActionName "StartUtteranceBotAction".toList = some "UtteranceBotAction".toList
+    ∧ startActionName "StartActionActionX".toList = some "ActionAction".toList
+    ∧ startActionName "Start\nAction".toList = none
+    ∧ startActionName "UtteranceBotActionFinished".toList = none
+    ∧ startActionName "StartAction".toList = some "Action".toList := by decide +kernel
+
+/-- **`startActionName` is the greedy match of the source's pattern `Start(.*Action)`** (tied to CPython `re` by the `fn`
+    differential on every run): the name follows `Start` literally, ends with `Action`, has no newline; it is the longest such
+    name on the first line; and when there is no match no prefix of the rest of the first line ends with `Action` -/
+theorem startActionName_spec (t n : Str) (h : startActionName t = some n) :
+    (("Start".toList ++ n) <+: t ∧ "Action".toList <:+ n ∧ '\n' ∉ n) ∧
+    (∀ q, q <+: (t.drop 5).takeWhile (· != '\n') → "Action".toList <:+ q → q.length ≤ n.length) :=
+  ⟨startActionName_sound t n h, fun q hq hs => startActionName_greedy t n q h hq hs⟩
+
+theorem startActionName_none_spec (t : Str) (h : startActionName t = none) (hp : "Start".toList <+: t) :
+    ∀ q, q <+: (t.drop 5).takeWhile (· != '\n') → ¬ "Action".toList <:+ q :=
+  fun q hq => startActionName_none t q h hp hq
+
+/-- non-vacuity of `startActionName_none_spec`: a `Start…` type without `Action` on its first line -/
+example : startActionName "Start\nAction".toList = none ∧ "Start".toList <+: "Start\nAction".toList := by decide +kernel
+
+end Assembly
 
 end NemoVerif.C17
